@@ -6,7 +6,11 @@ use crate::verif::locks::RwLock;
 #[cfg(not(feoxdb_verif))]
 use parking_lot::RwLock;
 use scc::HashMap;
-use std::sync::atomic::{AtomicU64, AtomicUsize, Ordering};
+#[cfg(feoxdb_verif)]
+use crate::verif::atomics::AtomicU64;
+#[cfg(not(feoxdb_verif))]
+use std::sync::atomic::AtomicU64;
+use std::sync::atomic::{AtomicUsize, Ordering};
 use std::sync::Arc;
 
 use crate::core::record::{Record, TreeSlot};
